@@ -7,28 +7,37 @@
 (*   Q  agenda empty: public counters and store contents of element `to`                                        *)
 (*   Z  agenda empty, nothing raised                                                                            *)
 (*   X  an exception escaped (no action of the specification matches it)                                        *)
-(* Discards are not tapped, they are inferred: a counted drop from the counter read at R, a wire loss from the  *)
-(* draw, a missing route from the return of the put().  A packet that silently disappears stays in `held` and   *)
-(* blocks Q / Z; a packet that appears from nowhere or twice, with other fields, or overtaking its own flow     *)
-(* has no enabled B step.                                                                                       *)
+(* Discards are not tapped, they are inferred: a counted drop from the counter read at R, a missing route from   *)
+(* the return of the put(), a wire loss from the wire's draws (how many) together with what the wire does next   *)
+(* (which: a packet overtaken inside a lossy wire by a later one of its own flow, or left over at the end).  A   *)
+(* packet that silently disappears stays in `held` and blocks Q / Z; a packet that appears from nowhere or       *)
+(* twice, with other fields, or overtaking its own flow has no enabled B step.                                   *)
 EXTENDS Conserve, Json
-VARIABLES tid, l
+VARIABLES tid, l,
+          lmust,    \* lossy wire -> loss draws seen so far that were below the loss rate (a packet must have been lost for each)
+          lmay      \* lossy wire -> loss draws seen so far that were exactly the loss rate (a packet may have been lost)
 Traces == JsonDeserialize("traces.json")
-vars == <<cvars, tid, l>>
+vars == <<cvars, tid, l, lmust, lmay>>
 Tr == Traces[tid].ev
 Ev == Tr[l]
 
 Init == /\ tid \in 1..Len(Traces) /\ l = 1 /\ TLCSet(tid, 1)
         /\ InitWith(Traces[tid].cfg)
+        /\ lmust = [e \in 1..Len(Traces[tid].cfg.kind) |-> 0]
+        /\ lmay = [e \in 1..Len(Traces[tid].cfg.kind) |-> 0]
 More == l <= Len(Tr)
 Consume == l' = l + 1 /\ UNCHANGED tid
+Draws == UNCHANGED <<lmust, lmay>>
+\* losses never outnumber the draws that allow them
+LossesCovered(b) == ndrop'[b] <= lmust[b] + lmay[b]
 Opt(x, v) == x = -1 \/ x = v
 
 PutEv == /\ More /\ Ev.e = "B"
          /\ \/ Emit(Ev.fr, Ev.to, Ev.o, Ev.fl)
             \/ Forward(Ev.fr, Ev.to, Ev.o, Ev.fl)
+            \/ ForwardPastLost(Ev.fr, Ev.to, Ev.o, Ev.fl) /\ LossesCovered(Ev.fr)
             \/ \E k \in 1..Len(SuccSeq(Ev.fr)) : SuccSeq(Ev.fr)[k] = Ev.to /\ SplitOut(Ev.fr, k, Ev.o, Ev.fl)
-         /\ Consume
+         /\ Draws /\ Consume
 
 \* the put() into b has returned: counted drop, missing route, or the packet is kept / has already been passed on
 ReturnEv ==
@@ -41,29 +50,32 @@ ReturnEv ==
              /\ IF Holds(b, o) /\ NoRoute(b, Flow(Ev.fl)) THEN RouteDrop(b, o)
                 ELSE /\ MayHold(b) \/ held[b] = <<>>         \* a pass-through element has dealt with it
                      /\ UNCHANGED cvars
-  /\ Consume
+  /\ Draws /\ Consume
 
-\* loss draw u = un/ud of a wire with loss rate p: u < p loses a held packet, u > p does not, u = p either
+\* loss draw u = un/ud of a wire with loss rate p: u < p loses a packet, u > p does not, u = p either.  Which packet
+\* it was shows later: it is overtaken by a packet of its flow (ForwardPastLost) or is still there at the end (LoseRest).
 DrawEv ==
   /\ More /\ Ev.e = "U"
   /\ LET b == Ev.to  pn == cfg.loss[b][1]  pd == cfg.loss[b][2] IN
      /\ Kind(b) = "wire"
-     /\ \/ /\ ~(Ev.un * pd < pn * Ev.ud) /\ UNCHANGED cvars
-        \/ /\ ~(Ev.un * pd > pn * Ev.ud) /\ \E i \in 1..Len(held[b]) : LossDrop(b, held[b][i].o)
-  /\ Consume
+     /\ lmust' = [lmust EXCEPT ![b] = IF LossyWire(b) /\ Ev.un * pd < pn * Ev.ud THEN @ + 1 ELSE @]
+     /\ lmay' = [lmay EXCEPT ![b] = IF LossyWire(b) /\ Ev.un * pd = pn * Ev.ud THEN @ + 1 ELSE @]
+  /\ UNCHANGED cvars /\ Consume
 
 \* nothing left in the element; its own counters agree with what crossed its edges
 QuietEv ==
   /\ More /\ Ev.e = "Q"
   /\ LET b == Ev.to IN
-     /\ IsSink(b) \/ IsSrc(b) \/ held[b] = <<>>
+     /\ IF LossyWire(b) /\ held[b] # <<>> THEN LoseRest(b) ELSE UNCHANGED cvars
+     /\ IsSink(b) \/ IsSrc(b) \/ held'[b] = <<>>
+     /\ LossyWire(b) => (lmust[b] <= ndrop'[b] /\ ndrop'[b] <= lmust[b] + lmay[b])   \* every loss has its draw and vice versa
      /\ IsSink(b) \/ IsSrc(b) \/ Opt(Ev.items, 0)
      /\ IsSrc(b) \/ Opt(Ev.rcv, nin[b])
      /\ Opt(Ev.snt, nout[b])
      /\ IF CountedDrop(b) THEN Ev.drp = ncnt[b] ELSE Opt(Ev.drp, ncnt[b])
-  /\ UNCHANGED cvars /\ Consume
+  /\ Draws /\ Consume
 
-EndEv == /\ More /\ Ev.e = "Z" /\ Quiesce /\ Consume
+EndEv == /\ More /\ Ev.e = "Z" /\ Quiesce /\ Draws /\ Consume
 
 Next == PutEv \/ ReturnEv \/ DrawEv \/ QuietEv \/ EndEv
 Spec == Init /\ [][Next]_vars
